@@ -133,7 +133,7 @@ def run(ctx):
                     "fixed prefix of machine ids, not from all M machines",
                     loc=m.loc(n),
                 )
-    chk.floor("R19.a", n_ops, 2, "Operation constructions in the generator")
+    chk.floor("R19.a", n_ops, 1, "Operation constructions in the generator")
     # generate must hand a pool derived from num_machines to create_random_operation
     for n in own_nodes(generate.node):
         if isinstance(n, ast.Call) and isinstance(n.func, ast.Attribute) and n.func.attr == "create_random_operation":
@@ -327,18 +327,35 @@ def _iterator(ctx, base):
         if rv is None or ast.unparse(rv) != "self.generate()":
             ok = False
             chk.violation("R19.e", nxt, rv, "__next__ does not return self.generate()")
-    guards = [n for n in own_nodes(nxt.node) if isinstance(n, ast.If) and any(isinstance(x, ast.Raise) for x in n.body)]
-    g_ok = False
-    for g in guards:
-        t = ctx.norm.xtext(nxt, g.test)
-        if "_iteration_limit is not None" in t and ("_current_iteration >= self._iteration_limit" in t or "self._iteration_limit <= self._current_iteration" in t):
-            g_ok = True
-        elif "_current_iteration >" in t and ">=" not in t:
+    from .common import path_atoms
+
+    A_LIM = "self._iteration_limit is None"
+    A_CMP = "self._current_iteration < self._iteration_limit"
+    saw_stop = False
+    for p in eng.paths(nxt, base):
+        atoms = path_atoms(ctx, p.events)
+        lim_set = atoms.get(A_LIM) is False
+        reached = atoms.get(A_CMP) is False
+        if p.outcome == "raise" and p.events[-1].data.get("exc") == "StopIteration":
+            saw_stop = True
+            if not (lim_set and reached):
+                # off-by-one and friends
+                strict = atoms.get("self._iteration_limit < self._current_iteration") is True
+                ok = False
+                chk.violation(
+                    "R19.e", nxt, p.events[-1].node,
+                    "StopIteration is raised under a condition other than `limit is not None and current >= limit`"
+                    + (" (the comparison is strict: one instance too many is yielded)" if strict else ""),
+                    loc=p.events[-1].loc,
+                )
+                break
+        elif p.outcome == "return" and lim_set and reached:
             ok = False
-            chk.violation("R19.e", nxt, g.test, f"StopIteration guard `{t}` is off by one: one instance too many is yielded", loc=nxt.loc(g))
-    if not g_ok and ok:
+            chk.violation("R19.e", nxt, p.events[-1].node, "__next__ yields an instance although the iteration limit is reached", loc=p.events[-1].loc)
+            break
+    if not saw_stop and ok:
         ok = False
-        chk.violation("R19.e", nxt, guards[0].test if guards else None, "no StopIteration guard `limit is not None and current >= limit`")
+        chk.violation("R19.e", nxt, None, "no StopIteration guard `limit is not None and current >= limit`")
     if ok and n_ret:
         chk.ok("R19.e", nxt.qualname, nxt.loc(), "StopIteration at the limit; one increment; returns generate()")
     # __iter__
@@ -352,7 +369,7 @@ def _iterator(ctx, base):
     ln = base.methods.get("__len__")
     if ln is not None:
         rets = [n for n in own_nodes(ln.node) if isinstance(n, ast.Return)]
-        if rets and ctx.norm.xtext(ln, rets[-1].value) == "self._iteration_limit":
+        if rets and all(ctx.norm.xtext(ln, r.value) == "self._iteration_limit" for r in rets):
             chk.ok("R19.e", ln.qualname, ln.loc(), "len = iteration limit")
         else:
             chk.violation("R19.e", ln, rets[-1] if rets else None, "__len__ is not the iteration limit")
@@ -393,7 +410,11 @@ def _pool_and_shape(ctx, gen_cls, generate_raw, cro):
             "range(num_jobs) x range(num_machines): wrong number of jobs or operations per job",
             loc=generate.loc(o),
         )
-    job_app = [n for st in o.body for n in ast.walk(st) if isinstance(n, ast.Call) and ast.unparse(n.func) == "jobs.append"]
+    job_app = [
+        st for st in o.body
+        if isinstance(st, ast.Expr) and isinstance(st.value, ast.Call) and isinstance(st.value.func, ast.Attribute)
+        and st.value.func.attr == "append" and isinstance(st.value.func.value, ast.Name)
+    ]
     if len(job_app) == 1 and once and not any(isinstance(n, (ast.Break, ast.Continue)) for n in ast.walk(o)):
         chk.ok("R19.g", generate_raw.qualname, generate.loc(o), "one job per step, one operation per inner step")
     else:
